@@ -313,3 +313,18 @@ theorem inv_l5 : Inv [e1, e2, e3, e4, e5] l5 where
 example : ∃ L, loadEntries [9] .lww [e5] [e5, e2, e4, e1, e3] (-1) = some L ∧ values L = values l5 := by
   decide
 end Model.C09
+
+namespace Model.C09
+/-- a replica constructed in memory from another one's entries (the live map, a copy, or its linearisation)
+    with or without its heads is that replica again — and, the model being a value, owns its state -/
+theorem copy_equals_original {U : List Entry} (hU : (hashes U).Nodup) {l : Log} (I : Inv U l) (cid : Bytes) (k : SortKind) :
+    SameLog U l (newLog l.id cid k l.entries l.heads) ∧
+    SameLog U l (newLog l.id cid k l.entries []) ∧
+    (OrderOk l.sortFn l.entries → SameLog U l (newLog l.id cid k (values l) l.heads)) := by
+  refine ⟨?_, ?_, ?_⟩
+  · exact sameLog_of_newLog hU I _ _ _ _ (fun _ h => h) (fun _ h => h) (Or.inr ⟨I.headsNodup, fun _ => Iff.rfl⟩)
+  · exact sameLog_of_newLog hU I _ _ _ _ (fun _ h => h) (fun _ h => h) (Or.inl rfl)
+  · intro ho
+    exact sameLog_of_newLog hU I _ _ _ _ (fun e he => (values_perm I ho).mem_iff.mp he)
+      (fun e he => (values_perm I ho).mem_iff.mpr he) (Or.inr ⟨I.headsNodup, fun _ => Iff.rfl⟩)
+end Model.C09
